@@ -21,6 +21,21 @@ pub enum Body {
     /// an assignment to a variable whose name is also a command word (`TRACE = 5`): a program line like
     /// any other, not the command
     Word,
+    /// `DATA 0` / `DATA -0`: deliberately *not* tagged — two texts whose items compare equal as numbers
+    /// (0.0 == -0.0) and still are different texts; the last one entered is the stored one
+    Data,
+    /// a statement text that begins with a digit (`10 20`, `10 7=1`): tokenizes, so it is the text of
+    /// line 10 (not line 1020, not a deletion); RUN reaching it fails with a syntax error in that line
+    Num,
+}
+
+/// how the expected run of the stored program ends
+#[derive(Clone, Copy, Debug, PartialEq)]
+enum End {
+    Finished,
+    Stop(u64),
+    /// a `Num` line: not a statement
+    Error(u64),
 }
 
 const WORDS: &[&str] = &["TRACE", "STATS", "LIST", "RUN", "NEW"];
@@ -78,6 +93,8 @@ fn body_text(body: &Body, tag: u32) -> String {
         Body::Stop => "STOP".to_string(),
         Body::Colons => if tag % 2 == 0 { ":".to_string() } else { ": :".to_string() },
         Body::Word => format!("{} = {}", WORDS[tag as usize % WORDS.len()], tag),
+        Body::Data => if tag % 2 == 0 { "DATA 0".to_string() } else { "DATA -0".to_string() },
+        Body::Num => if tag % 2 == 0 { format!("{}", tag) } else { format!("{}=1", tag) },
     }
 }
 
@@ -88,13 +105,15 @@ fn listed(key: u64, body: &Body, tag: u32) -> String {
         Body::Stop => format!("{} STOP\n", key),
         Body::Colons => format!("{} {}\n", key, if tag % 2 == 0 { ":" } else { ": :" }),
         Body::Word => format!("{} {} = {}\n", key, WORDS[tag as usize % WORDS.len()], tag),
+        Body::Data => format!("{} DATA {}\n", key, if tag % 2 == 0 { "0" } else { "-0" }),
+        Body::Num => if tag % 2 == 0 { format!("{} {}\n", key, tag) } else { format!("{} {} = 1\n", key, tag) },
     }
 }
 
 type ModelMap = BTreeMap<u64, (Body, u32)>;
 
 /// expected output of running the stored program from `from` (None = first line) to the next STOP or the end
-fn expected_run(m: &ModelMap, from: Option<u64>) -> (Vec<Rec>, Vec<u64>, Option<u64>) {
+fn expected_run(m: &ModelMap, from: Option<u64>) -> (Vec<Rec>, Vec<u64>, End) {
     let mut recs = vec![];
     let mut path = vec![];
     for (k, (b, t)) in m.iter() {
@@ -106,14 +125,22 @@ fn expected_run(m: &ModelMap, from: Option<u64>) -> (Vec<Rec>, Vec<u64>, Option<
         path.push(*k);
         match b {
             Body::Print => recs.push(Rec::Print(format!("k{}\n", t))),
-            Body::Rem | Body::Colons | Body::Word => {}
+            Body::Rem | Body::Colons | Body::Word | Body::Data => {}
             Body::Stop => {
                 recs.push(Rec::Break(Some(*k)));
-                return (recs, path, Some(*k));
+                return (recs, path, End::Stop(*k));
             }
+            Body::Num => return (recs, path, End::Error(*k)),
         }
     }
-    (recs, path, None)
+    (recs, path, End::Finished)
+}
+
+fn stop_of(e: End) -> Option<u64> {
+    match e {
+        End::Stop(k) => Some(k),
+        _ => None,
+    }
 }
 
 fn check(c: &Case, ctx: &mut Ctx) -> Option<Violation> {
@@ -229,17 +256,27 @@ fn check(c: &Case, ctx: &mut Ctx) -> Option<Violation> {
                 let calls = s.line_and_settle("RUN", 5000);
                 ctx.calls(calls.len() as u64);
                 let mut recs = vec![];
+                let (want, path, end) = expected_run(&m, None);
+                let mut failed = None;
                 for cl in &calls {
                     if let Some(p) = cl.panicked() {
                         return v("panic", format!("panic@{p}"), format!("op {i} RUN unwound: {p}"));
                     }
                     if let Some(e) = cl.err() {
-                        return v("run-failed", e.kind.clone(), format!("op {i} RUN failed: {}", e.text));
+                        failed = Some(e.clone());
                     }
                     recs.extend(cl.recs.iter().cloned());
                 }
+                match (end, &failed) {
+                    (End::Error(k), Some(e)) if e.line == Some(k) && e.kind.starts_with("Syntax") => ctx.count("reach.run_failed_at_num_line"),
+                    (End::Error(k), _) => {
+                        return v("run-order-differs", "num-line".into(), format!("op {i} RUN: line {k} is not a statement, a syntax error in {k} was expected, got {:?}", failed.map(|e| e.text)))
+                    }
+                    (_, Some(e)) => return v("run-failed", e.kind.clone(), format!("op {i} RUN failed: {}", e.text)),
+                    _ => {}
+                }
                 s.apply(&Op::Flags(false, false));
-                let (want, path, stop) = expected_run(&m, None);
+                let stop = stop_of(end);
                 let got_out: Vec<Rec> = recs.iter().filter(|r| !matches!(r, Rec::Trace(_))).cloned().collect();
                 if got_out != want {
                     return v("run-order-differs", "output".into(), format!("op {i} RUN printed {:?}, the store says {:?}", got_out, want));
@@ -270,7 +307,8 @@ fn check(c: &Case, ctx: &mut Ctx) -> Option<Violation> {
                     n += 1;
                 }
                 ctx.calls(n as u64 + 1);
-                let (want, _path, stop) = expected_run(&m, None);
+                let (want, _path, end) = expected_run(&m, None);
+                let stop = stop_of(end);
                 if s.state() == St::Running {
                     s.apply(&Op::Break);
                     at_host_break = true;
@@ -291,17 +329,26 @@ fn check(c: &Case, ctx: &mut Ctx) -> Option<Violation> {
                 if let Some(at) = stopped_at {
                     let calls = s.line_and_settle("CONT", 5000);
                     ctx.calls(calls.len() as u64);
+                    let (want, _p, end) = expected_run(&m, Some(at));
                     let mut recs = vec![];
                     for cl in &calls {
                         if let Some(p) = cl.panicked() {
                             return v("panic", format!("panic@{p}"), format!("op {i} CONT unwound: {p}"));
                         }
                         if let Some(e) = cl.err() {
-                            return v("cont-failed", e.kind.clone(), format!("op {i} CONT after STOP at {at} failed: {}", e.text));
+                            match end {
+                                End::Error(k) if e.line == Some(k) && e.kind.starts_with("Syntax") => {}
+                                _ => return v("cont-failed", e.kind.clone(), format!("op {i} CONT after STOP at {at} failed: {}", e.text)),
+                            }
                         }
                         recs.extend(cl.recs.iter().cloned());
                     }
-                    let (want, _p, stop) = expected_run(&m, Some(at));
+                    if let End::Error(k) = end {
+                        if !calls.iter().any(|cl| cl.err().is_some()) {
+                            return v("run-order-differs", "num-line".into(), format!("op {i} CONT from {at}: line {k} is not a statement, a syntax error in {k} was expected"));
+                        }
+                    }
+                    let stop = stop_of(end);
                     if recs != want {
                         return v("run-order-differs", "cont".into(), format!("op {i} CONT from {at} printed {:?}, the store says {:?}", recs, want));
                     }
@@ -330,7 +377,7 @@ impl Prop for C04 {
     fn meta() -> Meta {
         Meta {
             level: "exploration",
-            rule: "Histories of 1-200 store operations over a per-run key pool that always may contain 0, 2^64-1, 2^64-2, 2^63, two adjacent keys and random u64 keys, spelled plainly, with leading zeros (up to 25 digits) or leading blanks/tabs: add, replace, delete (bare number), failed edit (illegal character, unterminated string, 1.2.3, the numerals 2^64 .. 2^64+3, bare or with text, which are not line numbers); bodies are PRINT / REM / STOP / a line of statement separators only / an assignment to a variable named like a command (TRACE, STATS, LIST, RUN, NEW); one entry in six is typed without a blank between number and statement; failed edits include a number followed only by Unicode blanks (NBSP, U+3000, VT, LF) and apostrophe comments, interleaved with LIST, RUN (with and without tracing), RUN broken after k ticks, and CONT — so that edits also arrive at a STOP breakpoint and at a host break in the middle of a run. Oracle: BTreeMap<u64,(body,tag)> reference; LIST must equal the map rendered in ascending key order AND the LIST of a twin interpreter that only ever received the final pairs once each in ascending order; RUN must print the tags (and trace the keys) in ascending key order up to the first STOP, CONT continues after it. Every body carries a unique tag so that each listed/printed line is attributable to one write. distinct_nontrivial = distinct op-sequence hashes among histories that end with >= 3 stored lines and performed >= 1 replace/delete.",
+            rule: "Histories of 1-200 store operations over a per-run key pool that always may contain 0, 2^64-1, 2^64-2, 2^63, two adjacent keys and random u64 keys, spelled plainly, with leading zeros (up to 25 digits) or leading blanks/tabs: add, replace, delete (bare number), failed edit (illegal character, unterminated string, 1.2.3, the numerals 2^64 .. 2^64+3, bare or with text, which are not line numbers); bodies are PRINT / REM / STOP / a line of statement separators only / an assignment to a variable named like a command (TRACE, STATS, LIST, RUN, NEW) / untagged `DATA 0` and `DATA -0` (texts whose items compare equal as numbers and are still different texts: the last one entered is the stored one) / a statement text that begins with a digit (`10 20`, `10 7=1`: it tokenizes, so it is the text of line 10 — not line 1020 and not a deletion — and RUN must fail with a syntax error in exactly that line after printing everything before it); one entry in six is typed without a blank between number and statement; failed edits include a number followed only by Unicode blanks (NBSP, U+3000, VT, LF) and apostrophe comments, interleaved with LIST, RUN (with and without tracing), RUN broken after k ticks, and CONT — so that edits also arrive at a STOP breakpoint and at a host break in the middle of a run. Oracle: BTreeMap<u64,(body,tag)> reference; LIST must equal the map rendered in ascending key order AND the LIST of a twin interpreter that only ever received the final pairs once each in ascending order; RUN must print the tags (and trace the keys) in ascending key order up to the first STOP, CONT continues after it. Every body carries a unique tag so that each listed/printed line is attributable to one write. distinct_nontrivial = distinct op-sequence hashes among histories that end with >= 3 stored lines and performed >= 1 replace/delete.",
             real: &["abasic-core Interpreter program store (ProgramLines: HashMap + BTreeSet), line-number parser, LIST, RUN line ordering"],
             stub: &["the host", "BTreeMap reference model"],
             assumptions: &[
@@ -344,6 +391,7 @@ impl Prop for C04 {
                 "reach.run_checked",
                 "reach.trace_order_checked",
                 "reach.cont_checked",
+                "reach.run_failed_at_num_line",
                 "fault.replace@stop",
                 "fault.replace@break",
                 "fault.failed_edit@idle",
@@ -366,22 +414,32 @@ impl Prop for C04 {
             Tier::Thorough => 200,
         });
         let stops = rng.chance(1, 2);
+        // swarm: one history in three may hold DATA 0 / DATA -0 lines, one in four statement texts that begin with a digit
+        let datas = rng.chance(1, 3);
+        let nums = rng.chance(1, 4);
         let mut ops = vec![];
         for i in 0..n {
             let key = rng.pick(&keys);
             let op = match rng.below(20) {
-                0..=8 => StoreOp::Enter {
-                    spelling: if rng.chance(1, 6) { format!("{}~", key) } else { spell(rng, key) },
-                    key,
-                    body: match rng.below(8) {
+                0..=8 => {
+                    let body = match rng.below(8) {
                         0 if stops => Body::Stop,
                         1..=2 => Body::Rem,
                         3 => Body::Colons,
                         4 if rng.chance(1, 2) => Body::Word,
+                        5 if datas => Body::Data,
+                        6 if datas && rng.chance(1, 2) => Body::Data,
+                        7 if nums && rng.chance(1, 2) => Body::Num,
                         _ => Body::Print,
-                    },
-                    tag: i as u32,
-                },
+                    };
+                    StoreOp::Enter {
+                        // (a Num body typed without the blank would be a longer line number, not this entry)
+                        spelling: if rng.chance(1, 6) && body != Body::Num { format!("{}~", key) } else { spell(rng, key) },
+                        key,
+                        body,
+                        tag: i as u32,
+                    }
+                }
                 9..=11 => StoreOp::Delete {
                     spelling: match rng.below(3) {
                         0 => format!("{}   ", key),
